@@ -177,9 +177,10 @@ def regenerate():
     * run on /repo: coq/Gen/Effects.v and EffectsOk.v are replaced (only when their content differs);
     * run on another checkout (VERIF_REPO): the shared coq/ tree is left alone when the table definition is
       the same as the installed one (the usual case: the change under test does not touch mechanism writes);
-      when it differs AND lists receiver writes, the table is compiled privately under out/…/altcoq (logical
-      prefix HVP) so that a concurrent check of /repo is not disturbed; a different but clean table (a
-      mechanism type or method was added/removed) is installed like a run on /repo would.
+      when it differs, the table, its Examples and a copy of the evaluator are compiled privately under
+      out/…/altcoq (logical prefix HVP); coq/Gen is never written.  For a different but clean table the
+      property theorems are those of the shared tree (C17_for_every_table is proved for EVERY table passing
+      `forallb row_ok`), instantiated by the privately checked `HVP.EffectsOk.effects_read_only`.
 
     returns (ok, message, rows-json or None)"""
     if "regen" in _state:
@@ -215,9 +216,11 @@ def regenerate():
     _state["private"] = False
     if ALT and same_as_shared(d):
         where = "table identical to the installed coq/Gen/Effects.v (left untouched)"
-    elif ALT and neff > 0:
+    elif ALT:
+        # a run on another checkout NEVER writes the shared coq/Gen (audit 2026-10-02: a "different but clean" table of a
+        # mutant run had been installed there)
         _state["private"] = True
-        where = "table differs from the installed one and lists writes: compiled privately (HVP.Effects), coq/Gen left untouched"
+        where = "table differs from the installed one: compiled privately (HVP.Effects), coq/Gen left untouched"
     else:
         where = "coq/Gen/Effects.v " + ("replaced" if install_shared(d) else "unchanged")
     msg = "effect table regenerated from %s (%d source files, hash %s, %s): %d mechanism types, %d methods, %d write effects; %s" % (
@@ -302,8 +305,38 @@ def custom(P, tier, seed, replay):
         pre, threads = _prefetch(P, tier, seed)
     ok, msg, rows = regenerate()
     bad = offending(rows) if ok else []
+    priv_note = None
+    if ok and not bad and _state.get("private"):
+        okc, oke, plog = private_build(_state["dir"])
+        if not (okc and oke):
+            rep = vf.Report(PID, tier, seed)
+            rep.notes += [msg, plog]
+            rep.obligation("example:HVP.EffectsOk (private build of the regenerated table)", False)
+            rep.violation({"kind": "proof-obligation-broken", "example": "effects_read_only / table_covers_mechanisms / evaluator against the table regenerated from " + vf.REPO,
+                           "log": plog, "theorems": P["theorems"]}, no_input=True)
+            for th in threads:
+                th.join()
+            return rep.finish({"evaluations": 0, "distinct_nontrivial": 0, "rule": P["rule"], "exhaustive": False},
+                              vf.TRUSTED_COMMON + P["trusted"], "coqc (private) HVP.Effects HVP.EffectsOk HVP.Eval", P["assumptions"])
+        priv_note = "private table: HVP.EffectsOk.effects_read_only and table_covers_mechanisms compiled; streams evaluated with HVP.Eval; " \
+                    "the property theorems are the shared ones, which hold for every table passing forallb row_ok (C17_for_every_table)"
     if ok and not bad:
         orig = runner.run_stream
+        orig_eval = runner.evaluate
+        orig_gens = P["generators"]
+        if priv_note:
+            def evaluate(pid, st, obs):
+                terms = [o["coq"] for o in obs]
+                if not terms:
+                    return {}, 0, 0, "no cases"
+                return vf.eval_cases(pid, "C17.Model", st["check_term"], terms, shard_size=st.get("shard", 400),
+                                     extra_imports="From HVP Require Import Eval.")
+            runner.evaluate = evaluate
+
+            def gen_private_table(rep):
+                rep.notes.append(priv_note)
+                return True, priv_note
+            P["generators"] = orig_gens + [gen_private_table]
 
         def run_stream(pid, st, tier_, seed_, n, only=None, tag=None):
             k = (st["name"], tier_, seed_, n)
@@ -319,6 +352,8 @@ def custom(P, tier, seed, replay):
             return runner.run_property(P, tier, seed, replay)
         finally:
             runner.run_stream = orig
+            runner.evaluate = orig_eval
+            P["generators"] = orig_gens
     for th in threads:
         th.join()
     if not ok:
@@ -333,10 +368,14 @@ def custom(P, tier, seed, replay):
     private = _state.get("private", False)
     if private:
         okc, oke, plog = private_build(_state["dir"])
+        # (if the kernel accepted the table although the JSON lists effects the obligations below would be wrong; the
+        #  Example is the authority, so say so and stop)
         if okc:
-            # the kernel accepts the table although the JSON lists effects: install it and let the generic runner decide
-            install_shared(_state["dir"])
-            return runner.run_property(P, tier, seed, replay)
+            rep = vf.Report(PID, tier, seed)
+            rep.notes.append("inconsistent: effects.json lists writes but HVP.EffectsOk compiles; " + msg)
+            rep.violation({"kind": "translator-inconsistent", "why": rep.notes[-1]}, no_input=True)
+            return rep.finish({"evaluations": 0, "distinct_nontrivial": 0, "rule": P["rule"], "exhaustive": False},
+                              vf.TRUSTED_COMMON + P["trusted"], "coqc (private)", P["assumptions"])
     else:
         okc, out = vf.coq_make(["Gen/EffectsOk.vo"])
         if okc:
